@@ -3,7 +3,7 @@ P (given A-ASYNCIO): association obligations at the gather sites; frame obligati
 B: adversarial schedules on the real event loop; gather_if_necessary and the placeholder replacement pass."""
 import time
 
-from checks.common import prove, run_bounded, verifier
+from checks.common import list_theory_obligations, prove, run_bounded, verifier
 from pyvc.frames import functions_of, write_set
 from vlib.report import Ctx
 
@@ -147,18 +147,21 @@ def run(ctx: Ctx) -> None:
         "own task (single evaluations modelled as functions of the key); ConditionNodeBuilder gives every key the node "
         "built from its own value. FRAME obligations (syntactic, whole code base around the gather sites): no function "
         "writes anything but its locals, objects it created, or an explicitly declared object that no concurrent "
-        "coroutine can observe - so the order of forcing cannot be observed. NOT REACHABLE by contracts: that CPython's "
-        "event loop implements A-ASYNCIO, gather_if_necessary's index bookkeeping and the identity-based placeholder "
-        "replacement - decided by the bounded adversarial schedules on the real loop.")
+        "coroutine can observe - so the order of forcing cannot be observed. gather_if_necessary's OWN BODY is proved "
+        "for lists of any length (loop invariant on the counter + theory of filtered sequences, whose three inductive "
+        "lemmas are proved each run). NOT REACHABLE by contracts: that CPython's event loop implements A-ASYNCIO, and "
+        "the identity-based placeholder replacement - decided by the bounded adversarial schedules on the real loop.")
     ctx.trust("A-ASYNCIO (M1-M4)", "A-INJECT", "single evaluations are functions of the key (user code)",
-              "gather_if_necessary: bounded (length <= 4 symbolically + adversarial schedules); "
               "_replace_sub_coroutines_with_awaited_results: bounded only")
     prove(ctx, TARGETS)
-    # own body of gather_if_necessary: every awaitability pattern of lists up to length 4 with symbolic contents.
-    # Bounded by length (labelled so): the obligations below are NOT part of an unbounded proof.
+    # own body of gather_if_necessary for a list of ANY length: loop invariant (side-car) + filtered-sequence theory
+    list_theory_obligations(ctx)
+    prove(ctx, ["ahbicht.utility_functions:gather_if_necessary#loop"])
+    # the same body once more, for every awaitability pattern of lists up to length 4 with symbolic contents: bounded by
+    # length (labelled so), kept because its counter-models replay directly and it does not depend on the invariant
     prove(ctx, ["ahbicht.utility_functions:gather_if_necessary#body"], kind="B (bounded by list length <= 4, symbolic contents)")
     ctx.assume("gather_if_necessary#body obligations are bounded by list length <= 4 (all 31 awaitability patterns, "
-               "symbolic contents); they are not counted as an unbounded proof")
+               "symbolic contents); the unbounded statement is gather_if_necessary#loop")
     frame_obligations(ctx)
     inject_obligations(ctx)
     run_bounded(ctx, "C12")
